@@ -697,7 +697,8 @@ func report(prop, tier string, seed int, results []*harnessResult, start time.Ti
 			"discharged": st.Discharged, "violations": len(r.ex.Violations), "wall_s": r.wall,
 			"sched_points": st.SchedPoints, "max_decisions": st.MaxDecisions,
 			"race_checked_accesses": st.RaceChecks, "happens_before_release_edges": st.SyncEdges, "blocking_ops_checked_for_deadlock": st.DeadlockChecks,
-			"bounds": r.h.opts,
+			"bounds":                 r.h.opts,
+			"native_only_validation": r.h.opts["nativeonly"] != "", // true: runs only against the compiled code to validate an assumption; not solver-decided
 		})
 		fmt.Printf("  %-40s paths=%-6d instrs=%-9d obl=%-6d viol=%d ifconv=%d sched=%d wall=%.1fs z3=%d/%.1fs cvc5=%d/%.1fs\n", r.h.name, st.Paths, st.Instrs, st.Obligations, len(r.ex.Violations), st.IfConverted, st.SchedPoints, r.wall, st.SolverQueries["z3"], st.SolverTime["z3"], st.SolverQueries["cvc5"], st.SolverTime["cvc5"])
 		if os.Getenv("VERIF_PROFILE") != "" {
